@@ -2,11 +2,11 @@
    Proved for ALL programs: (1) expressions - the emitted lines compute the source value in the shell
    (any nesting depth, any operator mix, all int64 values, strings as data); (2) integer literals keep their
    value through printing and re-reading; (3) the reference arithmetic is Go's int64 arithmetic;
-   (4) straight-line programs of assignments and prints (C01_straight_line_preserved); (5) programs with conditionals at any nesting depth (C01_conditionals_preserved);
-   (6) the statement structure of the script (C16/C04 theorems).  The simulation of loops, break/continue and panic (C01_full_statement) is NOT proved; it is decided on
+   (4) straight-line programs of assignments and prints (C01_straight_line_preserved); (5) programs with conditionals at any nesting depth (C01_conditionals_preserved); (6) terminating programs with loops, break
+   and continue (C01_loops_preserved); (7) the statement structure of the script (C16/C04 theorems).  Functions and panic are NOT covered by a theorem; it is decided on
    generated programs by running the implementation's script under /bin/bash against Sem/Src.v. *)
 From Verif Require Import Base.Bytestr Base.DecFacts Front.Ast Front.FrontModel Back.BashLines Back.Transpile Back.BashConv
-  Back.BashFacts Sem.Src Sem.SrcFacts Sem.BashSem Sem.ExprPreserve Sem.Words Sem.StmtPreserve Sem.FlatSem Sem.IfPreserve.
+  Back.BashFacts Sem.Src Sem.SrcFacts Sem.BashSem Sem.ExprPreserve Sem.Words Sem.StmtPreserve Sem.FlatSem Sem.IfPreserve Sem.FlatLoop Sem.LoopPreserve.
 From Coq Require Import ZArith.
 Open Scope N_scope.
 
@@ -50,6 +50,19 @@ Theorem C01_conditionals_preserved : forall XS sg body sg' out s u s' b,
   exists X b', b_code s' = b_code s ++ X /\ runs b X (b', out) /\ represents sg' b' s' XS.
 Proof. exact conditionals_preserved. Qed.
 Print Assumptions C01_conditionals_preserved.
+
+(* Loops.  Programs of assignments, prints, conditionals, three-clause and condition-only for loops, break and continue, at
+   any nesting depth (J is their source semantics with termination built in: a derivation exists exactly for terminating
+   runs; the increment clause runs at the start of every round but the first): the emitted lines, run by the flat shell
+   model with loops of Sem/FlatLoop.v (a loop is entered by pushing the list behind do; done and continue go back to it,
+   break and a failing exit test go behind the matching done; the first-iteration flag guards the increment), print what
+   the source prints and leave the environment representing the final source environment.  fresh_flags: no variable of
+   the program is spelled like a loop flag _fv<n> (C10). *)
+Theorem C01_loops_preserved : forall XS sg body sg' out s u s' b,
+  J XS (Prog body) sg sg' out SN -> go_fix body s = TOk u s' -> frag2_all body = true -> env_ok sg -> ctx_ok XS sg b s -> fresh_flags XS s ->
+  exists X b', b_code s' = b_code s ++ X /\ lruns b [] X (b', out) /\ represents sg' b' s' XS.
+Proof. exact loops_preserved. Qed.
+Print Assumptions C01_loops_preserved.
 
 (* Integer literals: what the converters print is read back as the same int64. *)
 Theorem C01_literal_roundtrip : forall z, (-9223372036854775808 <= z <= 9223372036854775807)%Z -> atoi (dec_Z z) = Some z.
@@ -106,3 +119,23 @@ Example C01_conditional_sample :
   | _ => False
   end.
 Proof. vm_compute. repeat split; reflexivity. Qed.
+
+(* Non-vacuity of the loop theorem: s = 0; for i = 0; i < 10; i++ { if i == 2 { continue }; if i > 4 { break }; s = s + i; print(i, s) }; print("end", s) *)
+Definition vi : var := mkVar (bs "i") (T DInt) true false.
+Definition vs0 : var := mkVar (bs "s") (T DInt) true false.
+Definition prog3 : list stmt :=
+  [SVarDef [vs0] [EInt 0];
+   SFor (Some (SVarDef [vi] [EInt 0])) (ECompare (EVar vi) CLt (EInt 10)) (Some (SAssign [vi] [EBinary (EVar vi) OpAdd (EInt 1)]))
+     [SIf [(ECompare (EVar vi) CEq (EInt 2), [SContinue])] [];
+      SIf [(ECompare (EVar vi) CGt (EInt 4), [SBreak])] [];
+      SAssign [vs0] [EBinary (EVar vs0) OpAdd (EVar vi)];
+      SPrint [EVar vi; EVar vs0]];
+   SPrint [EStr (bs "end"); EVar vs0]].
+Example C01_loop_sample :
+  frag2_all prog3 = true /\
+  match go_fix prog3 b_init with
+  | TOk _ s' => option_map snd (lrun 2000 false [] [] (b_code s'))
+                = Some (bs "0 0" ++ [10] ++ bs "1 1" ++ [10] ++ bs "3 4" ++ [10] ++ bs "4 8" ++ [10] ++ bs "end 8" ++ [10])
+  | _ => False
+  end.
+Proof. vm_compute. split; reflexivity. Qed.
